@@ -429,3 +429,41 @@ Definition sim_reply_target (v : bytes) (p : dppath) : res (option (N * host_add
       end
     end
   end.
+
+(** * 10. SNAP tunnel gateway: PacketPolicyError::offending_is_scmp_error (packet_policy.rs).
+    [malformed]: the failed check was MalformedPacket (no view exists); otherwise [d] is the
+    datagram and the view is its decodable prefix.  [Ok true]: the gateway sends nothing. *)
+Definition gateway_suppresses (malformed : bool) (d : bytes) : res bool :=
+  if malformed then Ok false else
+  vr <- try_from_slice KRaw d ;;
+  let v := fst vr in
+  hv <- pkt_header v ;;
+  nh <- hv_next_header hv ;;
+  if negb (nh =? PROTO_SCMP) then Ok false else
+  pl <- pkt_payload v ;;
+  Ok (match pl with t :: _ => t <? GW_ERROR_TYPE_BOUND | [] => false end).
+
+(** * 11. pocketscion: handle_scmp (simulator.rs), the router answering echo / traceroute requests
+    addressed to one of its interfaces.  [Ok None]: no reply (or an error was returned);
+    otherwise the reply's destination, reversed path and SCMP message (source: local AS and
+    router address). *)
+Definition sim_handle_scmp (v : bytes) (p : dppath) (local_as ifid : N)
+  : res (option (N * host_addr * dppath * scmp_msg)) :=
+  s <- as_scmp v ;;
+  match s with
+  | None => Ok None                                  (* "error classifying SCION packet for SCMP response" *)
+  | Some sv =>
+    ty <- scmp_type sv ;;
+    if ty =? T_ECHO_REQUEST then
+      id <- rd sv ScmpEchoRequest_IDENTIFIER_RNG 16 ;;
+      sq <- rd sv ScmpEchoRequest_SEQUENCE_NUMBER_RNG 16 ;;
+      dr <- scmp_tail_range ty sv ;;
+      t <- sim_reply_target v p ;;
+      Ok (match t with Some x => Some (x, SM_EchoRep id sq (sub sv (fst dr) (snd dr))) | None => None end)
+    else if ty =? T_TRACEROUTE_REQUEST then
+      id <- rd sv ScmpTracerouteRequest_IDENTIFIER_RNG 16 ;;
+      sq <- rd sv ScmpTracerouteRequest_SEQUENCE_NUMBER_RNG 16 ;;
+      t <- sim_reply_target v p ;;
+      Ok (match t with Some x => Some (x, SM_TrRep id sq local_as ifid) | None => None end)
+    else Ok None                                     (* bail!("Unexpected SCMP message") *)
+  end.
